@@ -275,6 +275,66 @@ def check_binary(case, ctx):
     return None
 
 
+# ---- presorted=True turns the sort-backed operators into streaming merges --------------------------------------------
+class Seq(Counting):
+    """Pull-counting source of n rows that is sorted under every key of the catalogue (all columns increase)."""
+
+    def __init__(self, n, offset=0):
+        Counting.__init__(self, None)
+        self.n, self.offset = n, offset
+
+    def _gen(self):
+        self.header_pulls += 1
+        yield list(catalog.H)
+        for i in range(self.n):
+            self.data_pulls += 1
+            v = i + self.offset
+            yield [v, v, v, "x%07d" % v]
+        self.exhausted += 1
+
+
+# not streaming even when presorted: pivot (collects its columns first), groupselectmin/max (sort by value by definition);
+# diff of two shifted sequences has its first row at the very end of the input
+PRESORTED = [n for n, e in catalog.ENTRIES.items() if e.has("presorted")
+             and n not in ("pivot", "groupselectmin", "groupselectmax", "diff0", "diff1")]
+
+
+def presorted_cases(tier):
+    for name in PRESORTED:
+        for k in (1, 3):
+            yield {"entry": name, "k": k}
+
+
+def check_presorted(case, ctx):
+    e = catalog.get(case["entry"])
+    k = case["k"]
+    res = []
+    for n in (60, 6000):
+        srcs = [Seq(n, offset=i) for i in range(e.n)]
+        try:
+            view = e.build(srcs, presorted=True)
+            c0 = [s_.data_pulls for s_ in srcs]
+            out = [tuple(r) for r in itertools.islice(view, k + 1)]
+        except Exception as ex:
+            ctx.label("rejected:" + type(ex).__name__)
+            return None
+        res.append((out, [s_.data_pulls for s_ in srcs], c0))
+    ctx.label("entry:" + e.name)
+    ctx.nontrivial(True)
+    (o1, p1, c1), (o2, p2, c2) = res
+    if any(c1) or any(c2):
+        return Fail("presorted/%s/construct-pulls" % e.name, "construction pulled %r / %r" % (c1, c2))
+    if len(o2) < k + 1:
+        return None
+    if o1 != o2:
+        return Fail("presorted/%s/prefix-differs" % e.name, "%r vs %r" % (o1, o2))
+    if p1 != p2:
+        return Fail("presorted/%s/pulls-depend-on-length" % e.name, "%d rows pulled %r from 60-row sources but %r from 6000-row sources" % (k + 1, p1, p2))
+    if max(p2) > 2 * k + 8:
+        return Fail("presorted/%s/pulls-exceed-bound" % e.name, "%d rows pulled %r data rows" % (k + 1, p2))
+    return None
+
+
 # ---- a DB-API cursor that knows its description only after the first fetch (server-side cursors) ---------------------
 class _LazyCursor(object):
     def __init__(self, conn):
@@ -379,7 +439,8 @@ def check_db(case, ctx):
 
 # ---- look / see / repr ---------------------------------------------------------------------------------
 def vis_cases(tier):
-    for fn in ("look", "see", "repr", "str", "repr_html", "lookstr", "values_repr"):
+    for fn in ("look", "see", "repr", "str", "repr_html", "lookstr", "values_repr", "slice_table", "slice_step", "slice_values",
+               "slice_dicts", "index_table"):
         for limit in (1, 3, 5):
             for depth in (0, 1, 2):
                 yield {"fn": fn, "limit": limit, "depth": depth}
@@ -408,6 +469,16 @@ def check_vis(case, ctx):
                 o = str(etl.see(t, lim))
             elif fn == "values_repr":
                 o = repr(etl.values(t, "k"))
+            elif fn == "slice_table":
+                o = repr([tuple(r) for r in etl.wrap(t)[:lim]])
+            elif fn == "slice_step":
+                o = repr([tuple(r) for r in etl.wrap(t)[1:2 * lim:2]])
+            elif fn == "slice_values":
+                o = repr(list(etl.values(t, "k")[:lim]))
+            elif fn == "slice_dicts":
+                o = repr([sorted(d.items(), key=repr) for d in etl.dicts(t)[0:lim]])
+            elif fn == "index_table":
+                o = repr(tuple(etl.wrap(t)[lim]))
             else:
                 etl.config.look_limit = lim
                 tw = etl.wrap(t)
@@ -502,6 +573,7 @@ SUBS = [
     Sub("stream", check_stream, strategy=stream_case, quick=4000, thorough=80000),
     Sub("binary", check_binary, enumerate=binary_cases),
     Sub("fromdb", check_db, enumerate=db_cases),
+    Sub("presorted", check_presorted, enumerate=presorted_cases),
     Sub("vis", check_vis, enumerate=vis_cases),
     Sub("files", check_files, strategy=file_case, quick=64, thorough=640),
 ]
